@@ -186,9 +186,9 @@ module.exports = {
   assumptions: ['eval frames are only checked through the string-formatting path (the wrapping path has no file name for them)', 'after a failed (syntax error) rewrite nothing is asserted about the file until it is rewritten again', 'lru-cache is a 12-line stand-in with get/set'],
   plan (ctx) {
     const shards = []
-    const nMods = ctx.tier === 'thorough' ? 1600 : 96
+    const nMods = ctx.tier === 'thorough' ? 3200 : 384
     for (let k = 0; k < nMods / 8; k++) shards.push({ kind: 'sites', count: 8, stream: k })
-    const nHist = ctx.tier === 'thorough' ? 1200 : 64
+    const nHist = ctx.tier === 'thorough' ? 2400 : 256
     for (let k = 0; k < nHist / 8; k++) shards.push({ kind: 'histories', count: 8, stream: 1000 + k })
     return shards
   },
